@@ -31,6 +31,7 @@ fn handle(ctx: &Ctx, line: &str) -> String {
     match t[0] {
         "REF" => common_fam::ref_case(ctx, &t),
         "LOAD" => common_fam::load_case(ctx, &t),
+        "LOADBIG" => common_fam::loadbig_case(&t),
         "WALK" => common_fam::walk_case(ctx, &t),
         "RND" => common_fam::rnd_case(&t),
         "FBT" => ids_fam::fbt_case(ctx, &t),
